@@ -58,6 +58,9 @@ type vfUserFacts struct {
 	BootstrapExp time.Time
 	BootstrapUsed bool
 	lastAccepted  string
+	lastTOTPAttempt time.Time
+	failsInARow     int
+	lastAcceptedStep int64
 	PendingSecret string
 	RegChallenge  string
 }
